@@ -572,9 +572,11 @@ class HistRun:
                     # (the one read that matters there is the old tree named by the token)
                     op["fault_sweep"] = 60
                     self.io_armed += 1
-                elif self.cfg.get("io_faults") and op["op"] in ("get", "head", "propfind", "report") and self.ops and self.ops[-1]["op"] in ("restart", "evict", "delete") and self.io_armed < 6 and self.frng.random() < 0.6:
-                    # the first read after a restart / cache eviction opens the stores again
+                elif self.cfg.get("io_faults") and op["op"] in ("get", "head", "propfind", "report") and self.io_armed < 6 and self.frng.random() < 0.12:
+                    # the store cache is emptied just before the request (every step ends with an audit
+                    # that warms it again), so the request opens its stores itself - under a read error
                     op["read_fault"] = {"after": self.frng.randint(1, 25), "errno": self.frng.choice(["EIO", "EMFILE"])}
+                    op["cold"] = True
                     self.io_armed += 1
                 elif self.cfg.get("io_faults") and op["op"] in ("get", "head", "propfind", "report") and self.io_armed < 3 and self.frng.random() < 0.15:
                     op["read_fault"] = {"after": self.frng.randint(1, 30), "errno": self.frng.choice(["EIO", "EMFILE"])}
@@ -583,7 +585,8 @@ class HistRun:
                 # failing multi-instruction PROPPATCH is left to C01/C08, which name it)
                 if self.cfg.get("io_faults") and op["op"] in ("put", "post", "delete", "proppatch", "reupload") and self.io_armed < (4 if self.prop == "C15" else 2) and self.frng.random() < 0.25 \
                         and not (self.prop == "C15" and op["op"] == "proppatch" and len(op.get("instrs", [])) > 1):
-                    op["fault"] = {"after": self.frng.randint(1, 45), "errno": self.frng.choice(["ENOSPC", "ENOSPC", "EIO"])}
+                    # (half of them early: the first mutations of a write are the lock and the file itself)
+                    op["fault"] = {"after": self.frng.randint(1, 6) if self.frng.random() < 0.5 else self.frng.randint(1, 45), "errno": self.frng.choice(["ENOSPC", "ENOSPC", "EIO"])}
                     self.io_armed += 1
                 return op
         return {"op": "get", "path": "/user/", "salt": 0}
@@ -1050,6 +1053,9 @@ class HistRun:
             FS.err_at = {FS.mut_seq + fault["after"]: getattr(_errno, fault["errno"])}
             FS.err_fired = []
         rfault = op.get("read_fault")
+        if op.get("cold"):
+            self.world.evict()
+            self.count("fault.cache_evict")
         if rfault:
             import errno as _errno
 
